@@ -302,17 +302,22 @@ theorem chain_at_most_once (kind : C13.Kind) (pre post : List C13.Op) (ctx : Nat
 
 /-- **`chain_once`, source still pending** (the normal case: `sendIq` returned an unfinished task).
 If the source is unfinished and referenced and the context object is alive when `chain` is
-called, and afterwards — before the source is finished — the source only sees handle copies and
-destructions of *other* contexts, then finishing the source finishes the chained task, and it does
-so exactly once in the whole history, whatever follows.  Together with `iq_eventually_exactly_once`
-(the source of a request task is finished exactly once) this covers every manager request built
-from the combinators alone.  (If the context — the manager — is destroyed first, the chained task is
-never finished: `C13.never_after_context_death`.) -/
+called, and between the call and the source's `finish` the source sees only handle copies, handle
+drops that leave at least one handle (the request table holds the promise until it finishes it),
+and destructions of *other* contexts — in any number and order (`C07Chain.Interlude`) — then
+finishing the source finishes the chained task, and it does so exactly once in the whole history,
+whatever follows.  Together with `iq_eventually_exactly_once` (a request task is finished exactly
+once) this covers every manager request built from the combinators alone (`all_chain_sites_pure`).
+Not covered, by design of the combinator: if the context (the manager) is destroyed first the
+chained task is never finished (`C13.never_after_context_death`); if somebody else attaches another
+continuation to the same source task it replaces the chain's (`C13.replaced_never_runs`; `chain`
+consumes its task handle, so this needs a copy made before); if every handle of the source is
+dropped unfinished nothing ever runs. -/
 theorem chain_once (kind : C13.Kind) (pre quiet post : List C13.Op) (ctx v : Nat)
     (hr : (C13.run (C13.init kind) pre).1.refs ≠ 0)
     (hf : (C13.run (C13.init kind) pre).1.finished = false)
     (ha : (C13.run (C13.init kind) pre).1.alive ctx = true)
-    (hq : ∀ op ∈ quiet, C07Chain.Quiet ctx op) :
+    (hq : C07Chain.Interlude ctx (C13.run (C13.init kind) pre).1.refs quiet) :
     C07Chain.finishes
       (C13.run (C13.run (C13.init kind) pre).1 (.thenOp ctx [] :: (quiet ++ .finish v :: post))).2
       (C13.run (C13.init kind) pre).1.nextId = 1 := by
@@ -410,12 +415,11 @@ example : (Mam.run (Mam.init false false) [.start, .collect true false, .iqResul
 example : C07Chain.finishes (C13.run (C13.init .value) [.thenOp 1 [], .copyHandle, .destroyCtx 2, .finish 7, .thenOp 1 []]).2 0 = 1 := by decide
 example : (C13.run (C13.init .value) [.finish 7]).1.result = some 7 ∧ (C13.run (C13.init .value) [.finish 7]).1.finished = true
     ∧ C07Chain.finishes (C13.run (C13.run (C13.init .value) [.finish 7]).1 [.thenOp 1 []]).2 0 = 1 := by decide
-example : ∀ op ∈ [C13.Op.copyHandle, C13.Op.destroyCtx 2], C07Chain.Quiet 1 op := by
-  intro op h
-  simp only [List.mem_cons, List.mem_nil_iff, or_false] at h
-  rcases h with rfl | rfl
-  · exact Or.inl rfl
-  · exact Or.inr ⟨2, rfl, by decide⟩
+example : C07Chain.Interlude 1 (C13.run (C13.init .value) []).1.refs
+    [.copyHandle, .copyHandle, .dropHandle, .destroyCtx 2, .dropHandle] := by
+  simp [C07Chain.Interlude, C13.run, C13.init]
+example : C07Chain.finishes (C13.run (C13.init .value)
+    [.thenOp 1 [], .copyHandle, .copyHandle, .dropHandle, .destroyCtx 2, .dropHandle, .finish 7, .dropHandle]).2 0 = 1 := by decide
 
 end Qx.C07
 
